@@ -91,8 +91,10 @@ def check_guards(ctx, wm: WeaverModel):
     ctx.check(all(e.seq < min([n.seq for n in news] or [10 ** 9]) for e in rs), 'C20.1', 'the shape check precedes the construction', '', fi.loc(), fi.qualname, 'shape-order')
     # 3 n < 2 : C04.4 on the base class
     st = strategy(ctx.prog, 'PiecewiseConstantRFA')
-    r = [e for e in st.init_raises if e.data.get('exc') == 'ValueError']
-    ctx.check(bool(r), 'C20.1', 'oversampling factor below 2: AbstractRFA.__init__ raises ValueError', '', st.init.loc(), st.init.qualname, 'n<2')
+    from .c04 import _is_n_lt_2
+    r = [e for e in st.init_raises if e.data.get('exc') == 'ValueError' and any(_is_n_lt_2(g, st.n) for g in e.guard)]
+    ctx.check(bool(r), 'C20.1', 'oversampling factor below 2: AbstractRFA.__init__ raises ValueError exactly when n < 2',
+              f"{[(e.data.get('exc'), [str(g) for g in e.guard]) for e in st.init_raises]}", st.init.loc(), st.init.qualname, 'n<2')
     # 4-6 dispatchers
     ctx.rule('C20.2', 'every literal dispatch over a method-name parameter ends in `raise ValueError` on the no-match path')
     dispatch_fallthrough(ctx, SAU + 'integral', 'method', 'integration rule', 2)
